@@ -912,14 +912,19 @@ def rule_simulator(repo: Repo) -> List[Ob]:
     obs = []
     rp = "simulation/simulator.py"
     sim = repo.cls("Simulator", rp)
-    handlers = [m for m in sim.all_methods if m.name in ("execute", "_")]
+    # the generic function is the method decorated with singledispatchmethod; its overloads are the methods decorated `<generic>.register`
+    # (whatever they are called: `_` or a descriptive name), dispatched on the annotation of the first argument or on register(<type>)
+    generic = next((m for m in sim.all_methods if any("singledispatch" in src(d) for d in m.node.decorator_list)), None) or sim.methods.get("execute")
+    gname = generic.name if generic is not None else "execute"
     kinds = {}
-    default = None
-    for m in handlers:
-        if m.name == "execute":
-            default = m
+    default = generic
+    for m in sim.all_methods:
+        regs = [d for d in m.node.decorator_list if src(d).startswith(gname + ".register")]
+        if not regs or m is generic:
             continue
-        a = m.node.args.args[1].annotation
+        a = m.node.args.args[1].annotation if len(m.node.args.args) > 1 else None
+        if a is None and isinstance(regs[0], ast.Call) and regs[0].args:
+            a = regs[0].args[0]
         kinds[src(a) if a is not None else "?"] = m
     ok = default is not None and any(isinstance(n, ast.Raise) for n in walk_no_nested(default.node)) and {"list", "IfStatem", "Assignment"} <= set(kinds)
     obs.append(Ob("S-simulator", f"{rp}::Simulator.execute::dispatch", rp, default.node.lineno if default else 0, "Simulator.execute", ok,
@@ -950,6 +955,42 @@ def rule_simulator(repo: Repo) -> List[Ob]:
         execs = [n for n in c.nodes if n.ast is not None and n.kind == "stmt" and any(isinstance(x, ast.Call) and call_name(x) == "execute" and x.args and derives(x.args[0], "branches") for x in ast.walk(n.ast))]
         elses = [n for n in c.nodes if n.ast is not None and n.kind == "stmt" and any(isinstance(x, ast.Call) and call_name(x) == "execute" and x.args and "else_branch" in src(x.args[0]) for x in ast.walk(n.ast))]
         problems = []
+        # first-match written as a search:  k = next((i for i, c in enumerate(conditions) if c.evaluate(state)), None); if k is not None: run branches[k]
+        searched = None
+        for st_ in walk_no_nested(m.node):
+            if isinstance(st_, ast.Assign) and len(st_.targets) == 1 and isinstance(st_.targets[0], ast.Name) and isinstance(st_.value, ast.Call) and call_name(st_.value) == "next" \
+                    and st_.value.args and isinstance(st_.value.args[0], ast.GeneratorExp) and len(st_.value.args[0].generators) == 1:
+                ge = st_.value.args[0]
+                g0 = ge.generators[0]
+                if isinstance(g0.iter, ast.Call) and call_name(g0.iter) == "enumerate" and g0.iter.args and derives(g0.iter.args[0], "conditions") and isinstance(g0.target, ast.Tuple) \
+                        and len(g0.target.elts) == 2 and all(isinstance(x, ast.Name) for x in g0.target.elts) and isinstance(ge.elt, ast.Name) and ge.elt.id == g0.target.elts[0].id \
+                        and len(g0.ifs) == 1 and isinstance(g0.ifs[0], ast.Call) and call_name(g0.ifs[0]) == "evaluate" and isinstance(g0.ifs[0].func.value, ast.Name) \
+                        and g0.ifs[0].func.value.id == g0.target.elts[1].id and len(st_.value.args) == 2 and isinstance(st_.value.args[1], ast.Constant) and st_.value.args[1].value is None:
+                    searched = st_.targets[0].id
+        if searched is not None and not tests:
+            from ..shape import conjuncts as _cj
+            good = bool(execs) and bool(elses)
+            for b in execs:
+                call = [x for x in ast.walk(b.ast) if isinstance(x, ast.Call) and call_name(x) == "execute"][0]
+                idx_ok = isinstance(call.args[0], ast.Subscript) and isinstance(call.args[0].slice, ast.Name) and call.args[0].slice.id == searched
+                facts = [(src(f_), tr_) for t, reach in controlling_tests(c, b) if isinstance(t.ast, ast.expr) and isinstance(reach, bool) for f_, tr_ in _cj(t.ast, reach)]
+                found_ = (f"{searched} is not None", True) in facts or (f"{searched} is None", False) in facts
+                good = good and idx_ok and found_ and not any(c.reachable(b, e) for e in elses)
+            for e in elses:
+                facts = [(src(f_), tr_) for t, reach in controlling_tests(c, e) if isinstance(t.ast, ast.expr) and isinstance(reach, bool) for f_, tr_ in _cj(t.ast, reach)]
+                good = good and ((f"{searched} is not None", False) in facts or (f"{searched} is None", True) in facts or
+                                 all(not c.reachable(b, e) and any(isinstance(b.ast, ast.Return) for _ in [0]) for b in execs))
+            if good:
+                obs.append(Ob("S-simulator", f"{rp}::Simulator._[IfStatem]::first-match", rp, m.node.lineno, "Simulator._[IfStatem]", True,
+                              "the index of the first true condition is searched for, the branch at that index runs, the else branch only if none held"))
+            else:
+                obs.append(inconclusive("S-simulator", f"{rp}::Simulator._[IfStatem]::first-match", rp, m.node.lineno, "Simulator._[IfStatem]", "first-match search recognised, its use not"))
+            m = None
+    if m is not None:
+        if not tests and any(isinstance(x, ast.Call) and call_name(x) == "evaluate" for x in walk_no_nested(m.node)):
+            obs.append(inconclusive("S-simulator", f"{rp}::Simulator._[IfStatem]::first-match", rp, m.node.lineno, "Simulator._[IfStatem]", "conditions are evaluated in a way that is not recognised"))
+            m = None
+    if m is not None:
         if not tests or not execs:
             problems.append("no condition test / branch execution found")
 
@@ -1009,7 +1050,8 @@ def rule_simulator(repo: Repo) -> List[Ob]:
             problems.append("condition k is not paired with branch k")
         ok = not problems
         msg = "conditions are tested in order; the first true one runs the branch at the same position and nothing else; else runs only if none held" if ok else "; ".join(sorted(set(problems)))
-    obs.append(Ob("S-simulator", f"{rp}::Simulator._[IfStatem]::first-match", rp, m.node.lineno if m else 0, "Simulator._[IfStatem]", ok, msg))
+    if not any(o.key.endswith("Simulator._[IfStatem]::first-match") for o in obs):
+        obs.append(Ob("S-simulator", f"{rp}::Simulator._[IfStatem]::first-match", rp, m.node.lineno if m else 0, "Simulator._[IfStatem]", ok, msg))
     # guard: the body runs only if the guard holds in the current state (searched in all methods of the class)
     body_calls = []
     for mm in sim.all_methods:
@@ -1239,6 +1281,15 @@ def rule_parser_helpers(repo: Repo) -> List[Ob]:
         vc = cfg_of(vf.node)
         vd = Defs(vf.node, vf.params()[0] if vf.params() else None)
         guards = [t for t, _ in vc.raise_guards() if ("param:" + vparam) in vd.roots(t.ast)]
+        # raising tests in helpers of the validator that are handed the probabilities (a generator that raises on the first negative entry, ...)
+        from ..shape import helper_calls as _hc
+        for hf, binding, _call in _hc(repo, vf, depth=2):
+            passed = [p_ for p_, a_ in binding.items() if ("param:" + vparam) in vd.roots(a_)]
+            if not passed:
+                continue
+            hd = Defs(hf.node, None)
+            hcfg = cfg_of(hf.node)
+            guards += [t for t, _ in hcfg.raise_guards() if any(("param:" + p_) in hd.roots(t.ast) for p_ in passed)]
 
         def cmp_const(t, k):
             for n in ast.walk(t.ast):
